@@ -22,7 +22,7 @@ RULE = (
 REQUIRED = ["iso_checked", "iso_true", "iso_false_same_size", "mappings_checked", "mappings_strictly_smaller_pattern_found",
             "boolean_subgraph_checked", "filter_differentials", "history_queries", "history_cache_shared_hits",
             "hcount_asymmetric_pairs", "graph_morphism_checked", "quick_prefilter_checked", "mono_not_induced_pairs",
-            "pairs_with_mixed_numeric_label_types"]
+            "pairs_with_mixed_numeric_label_types", "custom_comparator_matters"]
 ASSUMPTIONS = [
     "isomorphic(a, b) with hcount annotations: first argument is the host (a.hcount >= b.hcount) for equal sizes, as documented",
     "get_mappings: every returned map must be a valid label-preserving monomorphism; non-empty is demanded when the pattern is induced-contained",
@@ -175,6 +175,21 @@ def check_pair(ctx, A, Bg, tag, key, light=False):
                 if got:
                     bad("boolean-subgraph", f"larger graph reported contained in the smaller one ({ct}, use_filter={uf})", check_type=ct, use_filter=uf, swapped=True)
         ctx.count("filter_differentials")
+    # ---------------- caller-supplied comparators (weaker than equality) with the cheap filter on/off ---------------- #
+    if not light:
+        tol = lambda a, b: a is not None and b is not None and abs(float(a) - float(b)) <= 1.0   # noqa: E731
+        tol_edge = lambda p, h: tol(p.get("order"), h.get("order"))   # noqa: E731
+        for ct in ("induced", "monomorphism"):
+            exp_t = bool(B.embeddings(pat, host, sm_node_ok, tol_edge, induced=(ct == "induced"), limit=1))
+            for uf in (False, True):
+                for name, fn in (("SubgraphMatch.subgraph_isomorphism", SubgraphMatch.subgraph_isomorphism), ("graph_morphism.subgraph_isomorphism", GM.subgraph_isomorphism)):
+                    got = fn(pat, host, use_filter=uf, check_type=ct, edge_comparator=tol)
+                    ctx.count("custom_comparator_checked")
+                    if exp_t and not exp_b[ct]:
+                        ctx.count("custom_comparator_matters")
+                    if got != exp_t:
+                        bad("boolean-subgraph", f"{name}(check_type={ct}, use_filter={uf}, edge_comparator=|a-b|<=1) = {got}, definition under that comparator gives {exp_t}",
+                            check_type=ct, use_filter=uf, fn=name, comparator="tolerant")
     # ---------------- quick pre-filter of the search engine ---------------- #
     pf = SubgraphSearchEngine._quick_pre_filter(host, pat, NA, 5000)
     ctx.count("quick_prefilter_checked")
